@@ -6,8 +6,12 @@ CLAIMS["C05"] = dict(engine="seq",
        "SpanContext with flags 00,01,02,03,ff and trace state / without trace state / local SpanContext / invalid SpanContext carrying ids, flags and trace state / "
        "Context holding one of the 3 latest spans / a remote span / an invalid span / nothing / nothing + root mark / current context + root mark; "
        "WithActiveSpan on one of the 3 latest spans; scope exit; End} x {AlwaysOn, AlwaysOff, ParentBased(on/off), TraceIdRatio(0,.5,1), a harness sampler returning "
-       "DROP / RECORD_ONLY / RECORD_AND_SAMPLE with/without trace state and attributes; thorough: a sampler whose decision is chosen per call}. Oracle on GetContext() "
+       "DROP / RECORD_ONLY / RECORD_AND_SAMPLE with/without trace state and attributes; thorough: a sampler whose decision is chosen per call}; span kind, start "
+       "attributes and links rotate with the span number through three StartSpan entry points. Oracle on GetContext() "
        "of every span and on the exported SpanData: parent chosen by the statement's precedence rule, trace id inherited or fresh, span id fresh, non-zero and from "
-       "the configured generator, parent span id, sampled bit = the decision the sampler actually returned, no flag outside W3C level 1, trace state = sampler's else "
-       "parent's, dropped spans valid but never exported, sampled spans exported exactly once. The multi-thread part of the property is the business of the separate sched harness conc_c05, not of this one.",
+       "the configured generator, parent span id, sampled bit = the decision the sampler actually returned, and that decision was asked for this span (the sampler "
+       "was shown the resolved parent context, the span's trace id, and the name / kind / attributes / links given to StartSpan), no flag outside W3C level 1, "
+       "trace state = sampler's else parent's, the new context is not marked remote, dropped spans valid but never exported, sampled spans exported exactly once. "
+       "One small part forks the process after 0-2 spans with the real RandomIdGenerator: the span started in the child and the one started in the parent must not "
+       "repeat each other's (or any earlier) ids. The multi-thread part of the property is the business of the separate sched harness conc_c05, not of this one.",
   note=SEQ_NOTE)
